@@ -52,6 +52,7 @@ let handle (x : Sexp.t) : string =
     else Some (replace_anonymous_inputs_with_zero sy) in
   let model_txt = match model with Some m -> Sexp.to_string (sexp_of_sys m) | None -> "(panic)" in
   let impl_txt = Sexp.to_string impl_s in
+  Registry.set_model_lazy (fun () -> Printf.sprintf "(c11 %s %s)" model_txt (if sys_ok sy then "true" else "false"));
   if impl_txt = "(panic)" then begin
     let loc = match Sexp.field_opt "panicloc" fs with Some [l] -> Sexp.atom l | _ -> "?" in
     if sys_ok sy then Registry.result ~id ~status:"fail" ~key:("panic@" ^ loc) ~detail:("implementation panics; model=" ^ (if model = None then "(panic)" else "ok")) ()
